@@ -110,28 +110,57 @@ def run(chk, repo, tier):
                                              'has_michaelis_menten_elimination', 'has_mixed_mm_fo_elimination')}
     if any(v is None for v in dets.values()):
         raise AnalysisError('elimination detectors not found')
-    atoms_def = {}
+    # Each detector's result as a boolean formula over atoms. An atom is a non-boolean subexpression of the returned
+    # expression after its local temporaries were resolved (`odes.t in odes.get_flow(odes.central_compartment,
+    # output).free_symbols`), identified by its text, so it does not matter whether a detector names the atom in a local
+    # (`is_nonlinear = ...`), returns it inline, negates it with `not in`, or wraps it in bool().
+    atom_ids = {}
     formulas = {}
+
+    def abstract(e):
+        if isinstance(e, ast.UnaryOp) and isinstance(e.op, ast.Not):
+            return ast.UnaryOp(op=ast.Not(), operand=abstract(e.operand))
+        if isinstance(e, ast.BoolOp):
+            return ast.BoolOp(op=e.op, values=[abstract(v) for v in e.values])
+        if isinstance(e, ast.Constant) and isinstance(e.value, bool):
+            return e
+        if isinstance(e, ast.Call) and dotted(e.func) == 'bool' and len(e.args) == 1:
+            return abstract(e.args[0])
+        if isinstance(e, ast.IfExp) and isinstance(e.body, ast.Constant) and isinstance(e.orelse, ast.Constant) \
+                and e.body.value is True and e.orelse.value is False:
+            return abstract(e.test)
+        neg = False
+        if isinstance(e, ast.Compare) and len(e.ops) == 1 and isinstance(e.ops[0], (ast.NotIn, ast.NotEq, ast.IsNot)):
+            pos = {ast.NotIn: ast.In, ast.NotEq: ast.Eq, ast.IsNot: ast.Is}[type(e.ops[0])]()
+            e, neg = ast.Compare(left=e.left, ops=[pos], comparators=e.comparators), True
+        key = unparse(e)
+        nm = atom_ids.setdefault(key, f'atom{len(atom_ids)}')
+        leaf = ast.Name(id=nm, ctx=ast.Load())
+        return ast.UnaryOp(op=ast.Not(), operand=leaf) if neg else leaf
     for name, f in dets.items():
         ret = [n for n in f.node.body if isinstance(n, ast.Return) and n.value is not None]
         if not ret:
             raise AnalysisError(f'{name}: final return not found')
-        formulas[name] = ret[-1].value
-        # the definition of an atom with its local temporaries resolved (independent of how the computation is split
-        # into locals / helpers): `odes.t in odes.get_flow(odes.central_compartment, output).free_symbols`
         cfg_ = CFG(f.node)
         rid = reach.node_of(cfg_, ret[-1])
-        for a in names(ret[-1].value):
-            e = reach.expand_expr(cfg_, rid, ast.Name(id=a, ctx=ast.Load()))
-            atoms_def.setdefault(a, {})[name] = None if isinstance(e, ast.Name) and e.id == a else unparse(e)
-    atoms = sorted(atoms_def)
-    for a, per in atoms_def.items():
-        vals = {v for v in per.values()}
-        chk.instance(T2, f'atom {a}: defined identically in {len(per)} detector(s): {len(vals) == 1}')
-        if len(vals) != 1 or None in vals:
-            chk.violation(T2, om.rel, 'elimination detectors', f'atom {a}: {per}',
-                          'the detectors define the shared atom differently, so they do not partition one predicate space',
-                          witness='a model where the two definitions differ: two elimination types (or none) are reported')
+        full = reach.expand_expr(cfg_, rid, ret[-1].value) if rid is not None else ret[-1].value
+        # `if c: return True` + `return False` tails were not met on this tree; a detector whose value is decided by earlier
+        # returns is outside this abstraction
+        for s_ in f.node.body[:-1]:
+            if not any(isinstance(n, ast.Return) for n in ast.walk(s_)):
+                continue
+            # the common guard `if odes is None: return False` (no ODE system: no detector is true) is not part of the formula
+            guard = isinstance(s_, ast.If) and not s_.orelse and len(s_.body) == 1 and isinstance(s_.body[0], ast.Return) \
+                and isinstance(s_.body[0].value, ast.Constant) and s_.body[0].value.value is False \
+                and isinstance(s_.test, ast.Compare) and isinstance(s_.test.ops[0], ast.Is) \
+                and isinstance(s_.test.comparators[0], ast.Constant) and s_.test.comparators[0].value is None
+            if not guard:
+                raise AnalysisError(f'{name}: more than one return (the detector is not a single boolean expression)')
+        formulas[name] = abstract(full)
+    atoms = sorted(atom_ids.values())
+    for key, nm in atom_ids.items():
+        users = [n for n, fm in formulas.items() if nm in names(fm)]
+        chk.instance(T2, f'{nm} = `{key[:90]}` used by {users}')
     for (n1, f1), (n2, f2) in itertools.combinations(formulas.items(), 2):
         overlap = [dict(zip(atoms, vals)) for vals in itertools.product([False, True], repeat=len(atoms))
                    if bool_eval(f1, dict(zip(atoms, vals))) and bool_eval(f2, dict(zip(atoms, vals)))]
